@@ -4,7 +4,7 @@ sys.path.insert(0, os.path.dirname(os.path.dirname(os.path.abspath(__file__))))
 import ast
 import z3
 from pyvc import xreal as xr
-from pyvc.numexec import Unsupported
+from pyvc.numexec import Unsupported, ANALYSIS
 from pyvc.termrun import sym_params, run_membership, run_ctor, is_monotonic_source
 from pyvc.solve import Obl, static, undecided
 from pyvc.runner import main
@@ -67,7 +67,7 @@ def term_obligations(run, cls):
             inc, dec = tc.monotone(A, P)
             add(Obl(f"{fq}/ensures.monotone", pre + [cx2, xr.le(x, x2)] + ax.axioms() + ax.square_hints(),
                     z3.And(z3.Implies(inc, xr.le(y, y2)), z3.Implies(dec, xr.ge(y, y2))), fn=fq, meta=m(rp("monotone", ["x", "x2"]))))
-    except Unsupported as ex_:
+    except ANALYSIS as ex_:
         add(undecided(f"{fq}/subset", f"outside the verified subset: {ex_}", fn=fq, meta=SAMPLED(cls)))
     return obls
 
@@ -134,7 +134,7 @@ def ieee_obligations(run):
             try:
                 ex = FpExec({"start": st, "end": en, "height": h}, xv)
                 ex.run(fn)
-            except Unsupported as ex_:
+            except ANALYSIS as ex_:
                 out.append(undecided(f"{fq}/ieee.subset[x={which}]", f"outside the floating-point evaluator: {ex_}", fn=fq, meta=rp)); continue
             sup = [(ln, g, c) for ln, g, c, has_sqrt in ex.wheres if has_sqrt]
             out.append(static(f"{fq}/ieee.support_condition_found[x={which}]", len(sup) == 1 and len(ex.sqrts) >= 1, f"{len(sup)} np.where call(s) whose true branch takes a square root; {len(ex.sqrts)} np.sqrt call(s)", fn=fq))
